@@ -367,6 +367,12 @@ package modeling
 //@ spec idxInRange(m Mesh, n int) bool = forall i int :: 0 <= i && i < len(m.indices) ==> 0 <= m.indices[i] && m.indices[i] < n
 
 //@ func Mesh.Topology pure
+//@ func Mesh.Indices pure
+//@ func Mesh.Float1Attribute pure
+//@ func Mesh.Float2Attribute pure
+//@ func Mesh.Float3Attribute pure
+//@ func Mesh.Float4Attribute pure
+//@ func Mesh.HasVertexAttribute pure
 //@ func NewTriangleMesh pure
 //@ func NewMesh pure
 //@ func EmptyMesh pure
@@ -409,12 +415,14 @@ package modeling
 //@      (forall k1 string, k2 string :: has(m.v3Data, k1) && has(m.v4Data, k2) ==> len(m.v3Data[k1]) == len(m.v4Data[k2])) &&
 //@      (forall k1 string, k2 string :: has(m.v4Data, k1) && has(m.v4Data, k2) ==> len(m.v4Data[k1]) == len(m.v4Data[k2]))
 //@ spec noAttrs(m Mesh) bool = forall k string :: !has(m.v1Data, k) && !has(m.v2Data, k) && !has(m.v3Data, k) && !has(m.v4Data, k)
-//@ spec idxOK(m Mesh) bool = (forall i int, k string :: 0 <= i && i < len(m.indices) && has(m.v1Data, k) ==> 0 <= m.indices[i] && m.indices[i] < len(m.v1Data[k])) &&
-//@      (forall i int, k string :: 0 <= i && i < len(m.indices) && has(m.v2Data, k) ==> 0 <= m.indices[i] && m.indices[i] < len(m.v2Data[k])) &&
-//@      (forall i int, k string :: 0 <= i && i < len(m.indices) && has(m.v3Data, k) ==> 0 <= m.indices[i] && m.indices[i] < len(m.v3Data[k])) &&
-//@      (forall i int, k string :: 0 <= i && i < len(m.indices) && has(m.v4Data, k) ==> 0 <= m.indices[i] && m.indices[i] < len(m.v4Data[k])) &&
-//@      (noAttrs(m) ==> len(m.indices) == 0)
+//@ spec valInRange(m Mesh, v int) bool = 0 <= v && (forall k string :: has(m.v1Data, k) ==> v < len(m.v1Data[k])) && (forall k string :: has(m.v2Data, k) ==> v < len(m.v2Data[k])) &&
+//@      (forall k string :: has(m.v3Data, k) ==> v < len(m.v3Data[k])) && (forall k string :: has(m.v4Data, k) ==> v < len(m.v4Data[k]))
+//@ spec someAttr(m Mesh) bool = exists k string :: has(m.v1Data, k) || has(m.v2Data, k) || has(m.v3Data, k) || has(m.v4Data, k)
+//@ spec idxOK(m Mesh) bool = forall i int :: 0 <= i && i < len(m.indices) ==> valInRange(m, m.indices[i])
 //@ spec topoOK(m Mesh) bool = (m.topology == TriangleTopology ==> len(m.indices) % 3 == 0) && (m.topology == QuadTopology ==> len(m.indices) % 4 == 0)
+// a mesh without any attribute has no indices (the mention of indices[0] only gives the provers a term to work with)
+//@ spec emptyOK(m Mesh) bool = noAttrs(m) ==> len(m.indices) == 0 || m.indices[0] < 0
+// wf does not include emptyOK: operations that need it (vertex compaction) state it as a precondition of their own
 //@ spec wf(m Mesh) bool = sameLen(m) && idxOK(m) && topoOK(m)
 
 //@ spec sameAttrs(r Mesh, m Mesh) bool = r.v1Data == m.v1Data && r.v2Data == m.v2Data && r.v3Data == m.v3Data && r.v4Data == m.v4Data
@@ -631,3 +639,45 @@ package modeling
 //@     invariant first: forall j int :: 0 <= j && j < len(m.indices) ==> finalTris[j] == m.indices[j]
 //@     invariant shifted: forall j int :: len(m.indices) <= j && j < i ==> finalTris[j] == other.indices[j - len(m.indices)] + mAtrLength
 //@     invariant rest: forall j int :: i <= j && j < len(finalTris) ==> finalTris[j] == other.indices[j - len(m.indices)]
+
+// ---- attribute name lists: exactly the keys of the family, in a freshly allocated slice ----
+//@ func Mesh.Float1Attributes
+//@   props C01 C02 C03
+//@   returns names
+//@   ensures fresh_list: fresh(names)
+//@   ensures only_keys: forall j int :: 0 <= j && j < len(names) ==> has(m.v1Data, names[j])
+//@   ensures all_keys: forall k string :: has(m.v1Data, k) ==> exists j int :: 0 <= j && j < len(names) && names[j] == k
+//@   loop 1:
+//@     invariant list: fresh(attributes)
+//@     invariant only_keys: forall j int :: 0 <= j && j < len(attributes) ==> has(m.v1Data, attributes[j])
+//@     invariant all_seen: forall k string :: seen(k) ==> exists j int :: 0 <= j && j < len(attributes) && attributes[j] == k
+//@ func Mesh.Float2Attributes
+//@   props C01 C02 C03
+//@   returns names
+//@   ensures fresh_list: fresh(names)
+//@   ensures only_keys: forall j int :: 0 <= j && j < len(names) ==> has(m.v2Data, names[j])
+//@   ensures all_keys: forall k string :: has(m.v2Data, k) ==> exists j int :: 0 <= j && j < len(names) && names[j] == k
+//@   loop 1:
+//@     invariant list: fresh(attributes)
+//@     invariant only_keys: forall j int :: 0 <= j && j < len(attributes) ==> has(m.v2Data, attributes[j])
+//@     invariant all_seen: forall k string :: seen(k) ==> exists j int :: 0 <= j && j < len(attributes) && attributes[j] == k
+//@ func Mesh.Float3Attributes
+//@   props C01 C02 C03
+//@   returns names
+//@   ensures fresh_list: fresh(names)
+//@   ensures only_keys: forall j int :: 0 <= j && j < len(names) ==> has(m.v3Data, names[j])
+//@   ensures all_keys: forall k string :: has(m.v3Data, k) ==> exists j int :: 0 <= j && j < len(names) && names[j] == k
+//@   loop 1:
+//@     invariant list: fresh(attributes)
+//@     invariant only_keys: forall j int :: 0 <= j && j < len(attributes) ==> has(m.v3Data, attributes[j])
+//@     invariant all_seen: forall k string :: seen(k) ==> exists j int :: 0 <= j && j < len(attributes) && attributes[j] == k
+//@ func Mesh.Float4Attributes
+//@   props C01 C02 C03
+//@   returns names
+//@   ensures fresh_list: fresh(names)
+//@   ensures only_keys: forall j int :: 0 <= j && j < len(names) ==> has(m.v4Data, names[j])
+//@   ensures all_keys: forall k string :: has(m.v4Data, k) ==> exists j int :: 0 <= j && j < len(names) && names[j] == k
+//@   loop 1:
+//@     invariant list: fresh(attributes)
+//@     invariant only_keys: forall j int :: 0 <= j && j < len(attributes) ==> has(m.v4Data, attributes[j])
+//@     invariant all_seen: forall k string :: seen(k) ==> exists j int :: 0 <= j && j < len(attributes) && attributes[j] == k
